@@ -1,5 +1,6 @@
 """Hypothesis strategies for value trees of a message (see model.py for the
 representation) — boundary-biased raw bit patterns."""
+import copy
 import struct
 
 from hypothesis import strategies as st
@@ -35,6 +36,10 @@ def scalar_bits(prim):
 
 
 def member_value(m):
+    if m.kind == "set" and m.target["choices"]:
+        bits = [1 << c["index"] for c in m.target["choices"]]
+        subset = st.lists(st.sampled_from(bits), max_size=len(bits)).map(lambda xs: sum(set(xs)))
+        return st.one_of(subset, subset.map(lambda v: v ^ (2 ** (8 * m.size) - 1)), scalar_bits(m.prim))
     if m.kind in ("scalar", "enum", "set"):
         if m.kind == "enum" and m.target["values"]:
             known = []
@@ -43,6 +48,8 @@ def member_value(m):
                 known.append(num & (2 ** (8 * m.size) - 1))
             return st.one_of(st.sampled_from(known), scalar_bits(m.prim))
         return scalar_bits(m.prim)
+    if m.kind == "set" and False:
+        pass
     if m.kind == "array":
         n = m.size
         return st.one_of(st.binary(min_size=n, max_size=n),
@@ -84,7 +91,16 @@ def group_values(g, max_entries, inflate, depth, model=None):
     d = {"entries": n.flatmap(lambda k: st.lists(level_values(g, max_entries, inflate, depth + 1, model), min_size=k, max_size=k))}
     if inflate:
         d["extra"] = st.sampled_from([0, 0, 1, 2, 5, 8])
-    return st.fixed_dictionaries(d)
+    base = st.fixed_dictionaries(d)
+    if model is not None and flat and g.block_length <= 24 and max_entries >= 3:
+        # now and then a flat group with many (identical) entries: counts in the upper half of a narrow numInGroup type
+        top = 2 ** (8 * model.member(g.dimension, "numInGroup").size) - 1
+        counts = [c for c in (127, 128, 129, 200, 255, 256, 300) if c <= top]
+        many = st.fixed_dictionaries({"one": level_values(g, max_entries, False, depth + 1, model), "n": st.sampled_from(counts),
+                                      "extra": st.sampled_from([0, 0, 1]) if inflate else st.just(0)}).map(
+            lambda x: {"entries": [copy.deepcopy(x["one"]) for _ in range(x["n"])], "extra": x["extra"]})
+        return st.one_of(*([base] * 15 + [many]))
+    return base
 
 
 def level_values(L, max_entries=3, inflate=False, depth=0, model=None):
